@@ -89,17 +89,18 @@ impl ConfigIndex {
     pub(crate) fn query_config_page(
         &self,
         tenant: &Arc<String>,
+        offset: usize,
         limit: usize,
         param: &ConfigQueryParam,
     ) -> (usize, Vec<ConfigKey>) {
         let mut rlist = vec![];
-        let end_index = param.offset + limit;
+        let end_index = offset + limit;
         let mut index = 0;
         for (g, set) in &self.group_data {
             if param.match_group(g) {
                 for s in set {
                     if param.match_data_id(s) {
-                        if index >= param.offset && index < end_index {
+                        if index >= offset && index < end_index {
                             let key = ConfigKey::new_by_arc(s.clone(), g.clone(), tenant.clone());
                             rlist.push(key);
                         }
@@ -218,15 +219,18 @@ impl TenantIndex {
         if let Some(tenant) = &param.tenant {
             if param.namespace_privilege.check_permission(tenant) {
                 if let Some(index) = self.tenant_group.get(tenant) {
-                    return index.query_config_page(tenant, limit, param);
+                    return index.query_config_page(tenant, param.offset, limit, param);
                 }
             }
         } else {
+            // the offset counts matches across all tenants: each tenant consumes its share
+            let mut offset = param.offset;
             for (tenant, service_index) in &self.tenant_group {
                 if param.namespace_privilege.check_permission(tenant) {
                     let (sub_size, mut sub_list) =
-                        service_index.query_config_page(tenant, limit, param);
+                        service_index.query_config_page(tenant, offset, limit, param);
                     size += sub_size;
+                    offset = offset.saturating_sub(sub_size);
                     limit -= sub_list.len();
                     rlist.append(&mut sub_list);
                 }
